@@ -41,6 +41,9 @@ func checkC12(c *Check) {
 		rtUGeneric(a, v)
 		// the published token list must end at tokenIndex: the tail of a reused buffer holds an earlier input's tokens
 		rtTokens(a, v)
+		if rtEvalHere(v) {
+			rtReuseSemantics(a, v, "R-reuse-semantics", "Init/Reset then Parse on a used instance equals a fresh instance")
+		}
 	})
 }
 
@@ -84,6 +87,9 @@ func checkC06(c *Check) {
 		if v.in.Cfg.Bools["Ast"] {
 			// memo table is per instance and re-made by reset
 			rtResetComplete(a, v)
+			if rtEvalHere(v) {
+				rtMemoSemantics(a, v)
+			}
 		}
 	})
 	// wrapper half: lookup key, memoize placement and verdicts in the emitted rule functions
@@ -122,6 +128,7 @@ func checkC11(c *Check) {
 		if rtEvalHere(v) {
 			rtLineColSemantics(a, v, 5)
 			rtErrorSemantics(a, v, 3)
+			rtReuseSemantics(a, v, "R-parse-semantics", "Init/parse: nil exactly on a match with the final tokens published, else the first non-empty token that reached furthest")
 		}
 		rtRune(a, v)
 	})
